@@ -123,7 +123,43 @@ def exc_class(e):
             "error": "Eof", "ZstdError": "Eof"}.get(n, "Other")
 
 
+_CRC_T = []
+for _i in range(256):
+    _c = _i
+    for _ in range(8):
+        _c = (_c >> 1) ^ 0xEDB88320 if _c & 1 else _c >> 1
+    _CRC_T.append(_c)
+_CRC_REV = {_CRC_T[_i] >> 24: _i for _i in range(256)}
+
+
+def forge_crc(prefix, target):
+    """prefix + 4 bytes whose CRC-32 is `target`"""
+    import zlib
+    x, idx = target ^ 0xFFFFFFFF, []
+    for _ in range(4):
+        i = _CRC_REV[x >> 24]
+        idx.append(i)
+        x = ((x ^ _CRC_T[i]) << 8) & 0xFFFFFFFF
+    c, out = zlib.crc32(prefix) ^ 0xFFFFFFFF, bytearray()
+    for i in reversed(idx):
+        b = (c ^ i) & 0xFF
+        out.append(b)
+        c = (c >> 8) ^ _CRC_T[(c ^ b) & 0xFF]
+    data = bytes(prefix) + bytes(out)
+    assert zlib.crc32(data) == target
+    return data
+
+
 def pattern_bytes(rng, n, texture="random"):
+    """n bytes of the given texture; about one member in sixteen (4 <= n <= 1 MiB, not for 'zeros') gets its last four bytes
+    chosen so that its CRC-32 is a boundary value (0, which is falsy in Python, or 0xFFFFFFFF)"""
+    data = _pattern_bytes(rng, n, texture)
+    if texture != "zeros" and 4 <= n <= (1 << 20) and rng.random() < 0.0625:
+        data = forge_crc(data[:-4], rng.choice([0, 0, 0xFFFFFFFF]))
+    return data
+
+
+def _pattern_bytes(rng, n, texture="random"):
     if texture == "zeros":
         return bytes(n)
     if texture == "period":
